@@ -131,6 +131,30 @@ func (f *flowRun) step(fuse int) {
 	}
 }
 
+// stepStopInNext: an orderly stop request (context cancellation) arrives while the production step is inside
+// GetNextBatch and the sequencer has just handed out a non-empty batch; the step ends however it ends, the node
+// is stopped and later restarted on the same storage. No crash is involved: nothing may be lost.
+func (f *flowRun) stepStopInNext() {
+	if !f.up() {
+		return
+	}
+	ctx, cancel := context.WithCancel(context.Background())
+	defer cancel()
+	f.n.SeqD.AfterNext = func(kind string) {
+		if kind == "batch" {
+			cancel()
+		}
+	}
+	err := f.n.Step(ctx)
+	f.n.SeqD.AfterNext = nil
+	if err != nil && !errors.Is(err, world.ErrCrashed) && !errors.Is(err, context.Canceled) {
+		f.c.Tr.Emit("Halt", world.F{"node": "seq"})
+	}
+	f.c.Tr.Emit("Stop", world.F{"node": "seq", "clean": true})
+	f.n.M = nil
+	f.reaper = nil
+}
+
 func (f *flowRun) settle() {
 	f.n.KV.Disarm()
 	f.n.Exec.FailNext = 0
@@ -212,6 +236,40 @@ func RunTxFlow(c *Ctx) {
 					c.Count("crashruns", 1)
 				}
 			}
+		}
+	}
+	// 1b. an orderly stop that lands inside GetNextBatch, at every production step of the scenario
+	for _, bound := range []int{1, 2, 0} {
+		ops := []string{"inject2", "reap", "inject1", "reap", "step", "step", "reap", "step", "inject1r", "reap", "step"}
+		for i, op := range ops {
+			if op != "step" {
+				continue
+			}
+			f := newFlowRun(c, fmt.Sprintf("stopinnext/b%d/op%d", bound, i), bound)
+			f.start(-1)
+			var last []byte
+			for j, o := range ops {
+				if !f.up() {
+					f.start(-1)
+				}
+				switch {
+				case o == "inject2":
+					last = f.inject(2, nil)[0]
+				case o == "inject1":
+					last = f.inject(1, nil)[0]
+				case o == "inject1r":
+					f.inject(1, last)
+				case o == "reap":
+					f.reap(-1)
+				case o == "step" && j == i:
+					f.stepStopInNext()
+				case o == "step":
+					f.step(-1)
+				}
+			}
+			f.settle()
+			f.w.Close()
+			c.Count("stopruns", 1)
 		}
 	}
 	// 2. seeded random histories
